@@ -178,14 +178,19 @@ theorem finish_staged (s : St) (c : Nat) (st : Fin3) (j : Nat) :
       · simp only [upd_comp]; split <;> rfl
       · split <;> (simp only [upd_comp, push_comp]; split <;> rfl)
 
-theorem stageIn_spec {s : St} (hc : Core s) (c : Nat) :
-    Core (stageIn s c) ∧ Ext s (stageIn s c) :=
+theorem stageIn_spec (wf : Wf) {s : St} (hc : Core s) (c : Nat) :
+    Core (stageIn wf s c) ∧ Ext s (stageIn wf s c) :=
+  upd_spec hc c _ ⟨(hc.good c).fc, (hc.good c).ex, (hc.good c).pf⟩ (fun _ h => h) (fun _ => rfl) rfl
+
+/-- `comp_staged_in.add(component)` of `_fake_finish_with_state` -/
+theorem markStaged_spec {s : St} (hc : Core s) (c : Nat) :
+    Core (s.upd c fun x => { x with staged := true }) ∧ Ext s (s.upd c fun x => { x with staged := true }) :=
   upd_spec hc c _ ⟨(hc.good c).fc, (hc.good c).ex, (hc.good c).pf⟩ (fun _ h => h) (fun _ => rfl) rfl
 
 theorem fakeFinish_spec {s : St} (hc : Core s) (c : Nat) (st : Fin3) (hn : (s.comp c).ctrl = none) :
     Core (fakeFinish s c st) ∧ Ext s (fakeFinish s c st) := by
-  have h1 := stageIn_spec hc c
-  have h2 := finish_spec h1.1 c st (by simp [stageIn, hn])
+  have h1 := markStaged_spec hc c
+  have h2 := finish_spec h1.1 c st (by simp [hn])
   exact ⟨h2.1, h1.2.trans h2.2⟩
 
 theorem fakeFinish_other (s : St) (c : Nat) (st : Fin3) (j : Nat) (hj : j ≠ c) :
@@ -216,6 +221,17 @@ theorem killAll_spec (wf : Wf) {s : St} (hc : Core s) :
     · exact ⟨hs, Ext.refl s⟩) wf.order _ h0
   exact ⟨h2.1, h1.trans h2.2⟩
 
+theorem stopComponents_spec (wf : Wf) {s : St} (hc : Core s) (k : Nat) :
+    Core (stopComponents wf s k) ∧ Ext s (stopComponents wf s k) := by
+  unfold stopComponents
+  exact foldl_pres _ (fun s c (hs : Core s) => by
+    show Core (if (s.comp c).ctrl.isNone && !(s.comp c).finishCalled then finish s c .shutdown else s) ∧ Ext s _
+    split
+    · next h =>
+      simp only [Bool.and_eq_true, Option.isNone_iff_eq_none] at h
+      exact finish_spec hs c _ h.1
+    · exact ⟨hs, Ext.refl s⟩) (inStage wf k) s hc
+
 theorem stopStage_spec (wf : Wf) {s : St} (hc : Core s) (k : Nat) :
     Core (stopStage wf s k) ∧ Ext s (stopStage wf s k) := by
   unfold stopStage
@@ -235,10 +251,10 @@ theorem stopStage_spec (wf : Wf) {s : St} (hc : Core s) (k : Nat) :
     · exact ⟨hs, Ext.refl s⟩) (inStage wf k) _ h1.1
   exact ⟨h2.1, h1.2.trans h2.2⟩
 
-theorem taskExit_spec (wf : Wf) {s : St} (hc : Core s) (c : Nat) :
-    Core (taskExit wf s c) ∧ Ext s (taskExit wf s c) := by
+theorem taskExitCore_spec (wf : Wf) {s : St} (hc : Core s) (c : Nat) :
+    Core (taskExitCore wf s c) ∧ Ext s (taskExitCore wf s c) := by
   have hg := hc.good c
-  simp only [taskExit]
+  simp only [taskExitCore]
   split
   · next hre =>
     simp only [Bool.and_eq_true, Option.isNone_iff_eq_none] at hre
@@ -266,6 +282,13 @@ theorem taskExit_spec (wf : Wf) {s : St} (hc : Core s) (c : Nat) :
       split
       · exact h
       · exact push_pm_spec h c
+  · exact ⟨hc, Ext.refl s⟩
+
+theorem taskExit_spec (wf : Wf) {s : St} (hc : Core s) (c : Nat) :
+    Core (taskExit wf s c) ∧ Ext s (taskExit wf s c) := by
+  unfold taskExit
+  split
+  · exact taskExitCore_spec wf hc c
   · exact ⟨hc, Ext.refl s⟩
 
 theorem erase_spec {s : St} (hc : Core s) (n : Notif) :
@@ -485,22 +508,22 @@ theorem visit_fold (wf : Wf) (s0 : St) :
 
 /-! ### second phase: stage-in and launch of the ready list -/
 
-theorem stageIn_frame (s : St) (c : Nat) : Frame s (stageIn s c) := by
+theorem stageIn_frame (wf : Wf) (s : St) (c : Nat) : Frame s (stageIn wf s c) := by
   refine ⟨rfl, fun p _ => ?_, fun p hp => ?_⟩
   · simp only [stageIn, upd_comp]; split <;> rfl
   · simp only [stageIn, upd_comp]; split
     · rfl
     · exact hp
 
-theorem stageIn_fold (l : List Nat) : ∀ (s : St), Core s →
-    Core (l.foldl stageIn s) ∧ Ext s (l.foldl stageIn s) ∧ Frame s (l.foldl stageIn s) := by
+theorem stageIn_fold (wf : Wf) (l : List Nat) : ∀ (s : St), Core s →
+    Core (l.foldl (stageIn wf) s) ∧ Ext s (l.foldl (stageIn wf) s) ∧ Frame s (l.foldl (stageIn wf) s) := by
   induction l with
   | nil => intro s h; exact ⟨h, Ext.refl s, Frame.refl s⟩
   | cons x xs ih =>
     intro s h
-    have h1 := stageIn_spec h x
+    have h1 := stageIn_spec wf h x
     have h2 := ih _ h1.1
-    exact ⟨h2.1, h1.2.trans h2.2.1, (stageIn_frame s x).trans h2.2.2⟩
+    exact ⟨h2.1, h1.2.trans h2.2.1, (stageIn_frame wf s x).trans h2.2.2⟩
 
 theorem runComp_comp (wf : Wf) (s : St) (c j : Nat) :
     ((runComp wf s c).comp j) =
@@ -558,8 +581,8 @@ theorem schedPass_spec (wf : Wf) {s : St} (h : Inv wf s) :
   dsimp only
   split
   · exact ⟨h.of_ext hv.core hv.ext, hv.ext.ctrl⟩
-  · have h1 := stageIn_fold ready t hv.core
-    have hi : Inv wf (ready.foldl stageIn t) := h.of_ext h1.1 (hv.ext.trans h1.2.1)
+  · have h1 := stageIn_fold wf ready t hv.core
+    have hi : Inv wf (ready.foldl (stageIn wf) t) := h.of_ext h1.1 (hv.ext.trans h1.2.1)
     have h2 := runComp_fold wf ready _ hi (fun c hc => (hv.ready c hc).frame h1.2.2)
     refine ⟨h2.1, fun c f hc => ?_⟩
     rw [h2.2 c]
